@@ -4,6 +4,7 @@ import QuantemModel.Lemmas.RadonPad
 import QuantemModel.Lemmas.RadonSymmetry
 import QuantemModel.Lemmas.RadonLists
 import QuantemModel.Lemmas.RadonPadSpec
+import QuantemModel.Lemmas.RadonFilterSk
 /-!
 C07 — the torch Radon transform / filtered back-projection (Model/Radon.lean: `radonTorch*`,
 `fourierFilterTorch`, `iradonTorch`) is the same real function as the scikit-image reference
@@ -141,6 +142,56 @@ theorem filters_cosine_legacy_counterexample (m : Nat) (hm : 1 ≤ m) :
   ⟨cosine_sk_zero m hm, cosine_legacy_zero_ne m hm⟩
 
 example : (cosineWindowLegacy 64 0 : ℝ) ≠ 1 := (filters_cosine_legacy_counterexample 32 (by norm_num)).2
+
+/-! ## 2b. The `n` array and the size check, for every size -/
+
+/-- **nlist_agree_even**: for every even size — `size % 4 = 0` and `size % 4 = 2` alike —
+scikit-image's `n` (float bounds `size/2`, `dtype=int`, NumPy's length and truncation rules) is
+the port's integer `n` (`size // 2`), including the shared quirk for `size % 4 = 2`. -/
+theorem nlist_agree_even (P : Nat) (hP : P % 2 = 0) :
+    nListSk P = (nList P).map fun (m : Nat) => (m : Int) :=
+  nListSk_even P hP
+
+/-- the quirk itself: for `size % 4 = 2` the second half of `n` is even (`n = [1, 3, 2]` for size
+6), so the spatial kernel is *not* the symmetric `min(j, size - j)`; both sources share it. -/
+theorem nlist_mod4_two_example : nList 6 = [1, 3, 2] ∧ nListSk 6 = [1, 3, 2] ∧ nList 8 = [1, 3, 3, 1] := by
+  decide
+
+/-- **filter_sk_literal_even**: for every even size and every filter name scikit-image's literal
+construction (its own `n`, broadcasting, size check) is the closed form `fourierFilterSk` that
+`fourier_filter_agree` is about. -/
+theorem filter_sk_literal_even (P : Nat) (hP : P % 2 = 0) (name : String) (nm : FilterName)
+    (hnm : parseFilter name = some nm) :
+    (fourierFilterSkE P name : Except String (List ℝ)) = .ok (fourierFilterSk nm P) :=
+  fourierFilterSkE_even P hP name nm hnm
+
+/-- **filter_odd_size_rejected**: every odd size ≥ 3 is rejected by both with a ValueError — the
+port by its explicit check, scikit-image because its `n` has `size//2 + 1` elements and cannot
+be broadcast into `f[1::2]`. -/
+theorem filter_odd_size_rejected (P : Nat) (hP : P % 2 = 1) (h3 : 3 ≤ P) (name : String) :
+    (fourierFilterTorchE P name : Except String (List ℝ)) = .error "ValueError" ∧
+    (fourierFilterSkE P name : Except String (List ℝ)) = .error "ValueError" :=
+  fourierFilter_odd_rejected P hP h3 name
+
+/-- **filters_every_size_agree**: the outcome (filter or ValueError) of the two constructions is
+the same for every size except 1 and every filter name. -/
+theorem filters_every_size_agree (P : Nat) (hP1 : P ≠ 1) (name : String) (nm : FilterName)
+    (hnm : parseFilter name = some nm) :
+    (fourierFilterTorchE P name : Except String (List ℝ)) = fourierFilterSkE P name :=
+  fourierFilterE_agree P hP1 name nm hnm
+
+example : (fourierFilterTorchE 6 "hann" : Except String (List ℝ)) = fourierFilterSkE 6 "hann" :=
+  filters_every_size_agree 6 (by norm_num) "hann" .hann rfl
+
+/-- `filter_size_one_counterexample` (outside the documented domain "size must be even"): the port
+rejects size 1, NumPy broadcasts the one-element `n` into the empty slice and scikit-image
+returns a one-element filter. -/
+theorem filter_size_one_counterexample :
+    (fourierFilterTorchE 1 "ramp" : Except String (List ℝ)) = .error "ValueError" ∧
+    (match (fourierFilterSkE 1 "ramp" : Except String (List ℝ)) with
+      | .ok f => f.length = 1
+      | .error _ => False) :=
+  fourierFilter_size_one
 
 /-! ## 3. Filtered back-projection -/
 
